@@ -337,7 +337,7 @@ func (sc *Scheduler) Signal(
 		defer func() {
 			done <- true
 		}()
-		for g.IsRunning() {
+		for g.IsRunning() || g.isExecuting() {
 			time.Sleep(sc.pause)
 		}
 	}
